@@ -347,7 +347,7 @@ func init() {
 		Rule: "resource/termination monitor on scripted readers: ALL sequences of up to 5 steps over 8 step kinds {full read, short read, 1 byte, 0 bytes, data+EOF, data+error, error, EOF} (37448 scripts, each paired round-robin with one of 10 input classes: empty, valid 1 page / 3 pages, syntax error early/late, lexical failure early / late / at a page start / needing a lookahead byte from the next page) plus random longer scripts, " +
 			"with delays inside Read, Close and the log writer and seeded perturbation at the pipeline's suspension points (verifPoint hook), through ParseFile, InterpretFile and UnmarshalFile. Monitored: the call returns (goroutine-dump deadlock identification, per-case watchdog), Close count == 1 after quiescence, no Read after Close, " +
 			"<= 4 data reads after the failing byte was delivered however much input remains, Read calls <= steps + pages + 3, no library goroutine left blocked after the call, a delivered read error is returned (errors.Is). " +
-			"distinct = hash(input class, script, API, interleaving signature); non-trivial = the call returned and all counters were examined Input classes now also: 120 diagnostics followed by 3 kB of text, and one input per lexical-failure kind early in a long input. UnmarshalFile also gets unusable targets (nil, by value, nil pointer, slice); Close may return an error; read errors may wrap io.EOF; Close must not arrive while a Read is in progress; UnmarshalFile's target has struct-typed fields (nested, named and embedded); inputs ending inside a multi-byte character (of a final comment, a string, a stray character); the bytecode dump of a program given as text (whole, header only, after a shebang line).",
+			"distinct = hash(input class, script, API, interleaving signature); non-trivial = the call returned and all counters were examined Input classes now also: 120 diagnostics followed by 3 kB of text, and one input per lexical-failure kind early in a long input. UnmarshalFile also gets unusable targets (nil, by value, nil pointer, slice); Close may return an error; read errors may wrap io.EOF; Close must not arrive while a Read is in progress; UnmarshalFile's target has struct-typed fields (nested, named and embedded); inputs ending inside a multi-byte character (of a final comment, a string, a stray character); the bytecode dump of a program given as text (whole, header only, after a shebang line). Half of the injected read errors are values real readers return (EINTR, EAGAIN, os.ErrClosed bare / wrapped / in a PathError, timeouts with Temporary(), io.ErrUnexpectedEOF, context.Canceled, EIO ...), mostly from readers that would go on delivering if asked again.",
 		Assumptions:   []string{"perturbation only delays at real suspension points; it cannot produce schedules the program cannot have", "in the thorough tier the workload also runs under the race detector build"},
 		MinNontrivial: 1000,
 		RaceAlso:      func(tier string) bool { return tier == "thorough" },
@@ -745,7 +745,7 @@ func init() {
 		Rule: "Go race detector on a '-race -tags verif' build of the workers (GORACE=halt_on_error=0 log_path=...; reports are counted from the log files, deduplicated by the pair of library functions, exit codes are not trusted) + result-equality monitor. " +
 			"Workload: (a) the file pipeline on inputs with syntax errors on many lines, valid inputs and early lexical failures, read in chunks of 1..64 bytes with delays and seeded perturbation at the suspension points, so that the parser formats diagnostics while the lexer appends to the line table; (b) batches of 2/8/32 concurrent callers interpreting and ParseFile-ing different inputs, results compared with the sequential ones; " +
 			"(c) one shared Prog executed from 2/8/32 goroutines with a concurrency-safe writer: results equal the sequential ones, output is n times the sequential lines, the Prog dumps the same afterwards. " +
-			"distinct = hash of the run; non-trivial = (a) the event log shows a line-table update between two diagnostics, (b)/(c) the calls overlapped in one batch Also: the first use of the library in every worker process is 16 concurrent Interpret calls, half of them with disassembly, trace and statistics on; concurrent callers share one option slice with spare capacity and partly use the default log destination; pipeline runs with a late read error and a plain unsynchronised log buffer; the shared program executes three binds and the warnings are counted. A quarter of the shared programs define blocks of 8..130 fields (maps beyond their first bucket) with nested ones, another quarter print 64..128 KiB strings six times (each must arrive in one piece).",
+			"distinct = hash of the run; non-trivial = (a) the event log shows a line-table update between two diagnostics, (b)/(c) the calls overlapped in one batch Also: the first use of the library in every worker process is 16 concurrent Interpret calls, half of them with disassembly, trace and statistics on; concurrent callers share one option slice with spare capacity and partly use the default log destination; pipeline runs with a late read error and a plain unsynchronised log buffer; the shared program executes three binds and the warnings are counted. A quarter of the shared programs define blocks of 8..130 fields (maps beyond their first bucket) with nested ones, another quarter print 64..128 KiB strings six times (each must arrive in one piece). Two thirds of the shared programs are also executed concurrently while printing into an *os.File (a file opened for appending, whose contents are compared, and /dev/null).",
 		Assumptions:   []string{"absence of reports is absence on the executions run under the detector, not for all schedules", "the race detector sees only synchronisation it intercepts (pure Go here)"},
 		MinNontrivial: 200,
 		Race:          func(tier string) bool { return true },
